@@ -1535,8 +1535,22 @@ impl Fg {
     }
 
     fn t_switch(&mut self, pg: &mut Pg, depth: u32) {
+        let toctou = !pg.lkm() && pg.rng.chance(1, if pg.opts.order_bias { 3 } else { 6 });
+        self.t_switch_with(pg, depth, toctou)
+    }
+
+    /// `toctou`: `access(path)` in front of the jump table and `open(path)` in (nearly) every case, so that several
+    /// sink calls are reachable from the source only through different table entries.
+    fn t_switch_with(&mut self, pg: &mut Pg, depth: u32, toctou: bool) {
         let k = pg.rng.usize_below(6);
         let ncases = 2 + pg.rng.usize_below(3);
+        let path = pg.ro("/tmp/file.txt");
+        let mut have_source = false;
+        if toctou {
+            self.mov_ri(pg, "RSI", 4);
+            self.mov_ri(pg, "RDI", path);
+            have_source = self.call_named(pg, "access");
+        }
         self.ld32("RAX", "RBP", Self::slot_off(k), false);
         let ops = self.cmp_ops(vreg("EAX", 4), vconst(ncases as u64 - 1, 4), 4);
         self.asm.emit(ops);
@@ -1551,11 +1565,26 @@ impl Fg {
         let (a, b, c) = (self.asm.tmp(8), self.asm.tmp(8), self.asm.tmp(8));
         self.asm.push(vec![op2("INT_MULT", a.clone(), r8("RAX"), vconst(8, 8)), op2("INT_ADD", b.clone(), a, vconst(table, 8)), op_load(c.clone(), b)], Fin::JmpInd(c, cases.clone()));
         let saved = self.slots;
+        let mut sinks = 0;
         for l in cases {
             self.asm.bind(l);
             self.slots = saved;
-            self.stmts(pg, depth + 1, 1);
+            if toctou && have_source && !pg.rng.chance(1, 5) {
+                self.mov_ri(pg, "RSI", 0);
+                self.mov_ri(pg, "RDI", path);
+                if self.call_named(pg, "open") {
+                    sinks += 1;
+                }
+            } else {
+                self.stmts(pg, depth + 1, 1);
+            }
             self.asm.push(vec![op1("COPY", r8("RAX"), r8("RAX"))], Fin::Jmp(l_end));
+        }
+        if sinks >= 1 {
+            pg.expect.insert("CWE367".into());
+        }
+        if sinks >= 2 {
+            pg.feat("toctou-sinks-behind-jump-table");
         }
         self.slots = saved;
         self.asm.bind(l_default);
